@@ -80,7 +80,7 @@ func loadProp(id string) (*PropConfig, error) {
 func runProperty(pc *PropConfig, overlay map[string][]byte, timeoutS int, wantModel bool, only map[string]bool) *RunResult {
 	t0 := time.Now()
 	rr := &RunResult{ByName: map[string]*OblSummary{}}
-	eng, err := LoadEngine("/repo", pc.Packages, overlay)
+	eng, err := LoadEngine(repoRoot(), pc.Packages, overlay)
 	if err != nil {
 		rr.BuildError = err.Error()
 		return rr
@@ -136,6 +136,23 @@ func runProperty(pc *PropConfig, overlay map[string][]byte, timeoutS int, wantMo
 	go func() { defer wg.Done(); solveAll(covers, 2, 4, false) }()
 	solveAll(rest, timeoutS, 12, wantModel)
 	wg.Wait()
+	// A few undecided obligations (timeout / unknown) get a second, calmer attempt: one at a time, three times the
+	// budget, nothing else running. A machine under load must not turn a slow proof into an alarm; an obligation that
+	// is really false stays undecided or sat either way. Must-fail canaries (child processes) skip this.
+	if os.Getenv("GOVC_CANARY_CHILD") == "" {
+		var slow []*Obligation
+		for _, ob := range rest {
+			if ob.Status == "timeout" || ob.Status == "unknown" || ob.Status == "error" {
+				slow = append(slow, ob)
+			}
+		}
+		if len(slow) > 0 && len(slow) <= 12 {
+			for _, ob := range slow {
+				ob.Status = ""
+			}
+			solveAll(slow, timeoutS*3, 2, wantModel)
+		}
+	}
 	if wantModel {
 		done := 0
 		for _, ob := range rest {
@@ -328,7 +345,7 @@ func cmdCheck(args []string) {
 		fmt.Println(l)
 	}
 	exit := 0
-	replayDir := filepath.Join(verifRoot, "replays", id)
+	replayDir := filepath.Join(outRoot(), "replays", id)
 	for _, v := range violations {
 		os.MkdirAll(replayDir, 0o755)
 		path := filepath.Join(replayDir, nameSan.ReplaceAllString(v.Name, "_")+".json")
@@ -391,6 +408,7 @@ func runCanaries(pc *PropConfig, thorough bool) (run, ok int, notes []string) {
 			sem <- true
 			defer func() { <-sem }()
 			cmd := exec.Command(self, "check", pc.ID, "--mutant", fmt.Sprint(i))
+			cmd.Env = append(os.Environ(), "GOVC_CANARY_CHILD=1")
 			out, err := cmd.CombinedOutput()
 			code := 0
 			if err != nil {
@@ -429,7 +447,7 @@ func lastLines(s string, n int) string {
 
 func runCanaryChild(pc *PropConfig, i int, timeout int) {
 	c := pc.Canaries[i]
-	path := filepath.Join("/repo", c.File)
+	path := filepath.Join(repoRoot(), c.File)
 	data, err := os.ReadFile(path)
 	if err != nil || strings.Count(string(data), c.Old) != 1 {
 		fmt.Println("pattern not applicable")
@@ -656,6 +674,23 @@ func writeEvidence(pc *PropConfig, tier string, rr *RunResult, fails, violations
 		"violations":  len(violations),
 	}
 	data, _ := json.MarshalIndent(ev, "", " ")
-	os.MkdirAll(filepath.Join(verifRoot, "evidence"), 0o755)
-	os.WriteFile(filepath.Join(verifRoot, "evidence", pc.ID+".json"), data, 0o644)
+	os.MkdirAll(filepath.Join(outRoot(), "evidence"), 0o755)
+	os.WriteFile(filepath.Join(outRoot(), "evidence", pc.ID+".json"), data, 0o644)
+}
+
+// repoRoot / outRoot: /repo and /verif, except for the seed matrix tool, which checks patched scratch copies of the
+// repository in parallel and must not overwrite the committed evidence (GOVC_REPO, GOVC_OUT). The commands registered
+// in MANIFEST.json never set these.
+func repoRoot() string {
+	if v := os.Getenv("GOVC_REPO"); v != "" {
+		return v
+	}
+	return "/repo"
+}
+
+func outRoot() string {
+	if v := os.Getenv("GOVC_OUT"); v != "" {
+		return v
+	}
+	return verifRoot
 }
